@@ -55,6 +55,9 @@ QueryOK(rule, nodes, ib, tags, q) ==
      /\ (tame => /\ q.o = "ok" /\ IsNum(q.val) /\ q.val.k = nodes[1].v.k
                  /\ FClose(q.val.re, W.re, W.sre)
                  /\ (Sens => CloseTo(q.val, W, NS) /\ ShapeOK(q.val))
+                 \* "the value at a node date is that node's value" - the whole number the node holds, derivatives included
+                 \* (for every property, C11 too)
+                 /\ ((\E i \in 1..Len(nodes) : nodes[i].d = q.x) => CloseTo(q.val, W, NS) /\ ShapeOK(q.val))
                  \* the same sensitivities read BY NODE TAG in node order (gradient1 / gradient2 with a requested list):
                  \* a read-back copies, so it agrees bit for bit with the stored derivatives by name - zero for a tag the
                  \* value does not carry, and the full (symmetric) matrix at second order
